@@ -320,7 +320,7 @@ def run(prop, replay_file=None):
                 continue
             rep.violation("session|%s|%s" % (kind, c["sched"]), "%s: %s; configuration: %s" % (kind, detail, _brief(c)),
                           dict(config=c, kind=kind, detail=detail))
-        if i < 2:
+        if pred(features(c, exp)) and len(rep.cov["samples"]) < 3:
             rep.sample(dict(configuration=_brief(c), tlc_fills=[(str(ts(f[0])), sr.ASSETS[f[1] - 1], f[2], f[3] / 1000.0, f[4] / 1000.0) for f in exp[4]][:8],
                             tlc_equity=[(str(ts(t)), v / 1000.0) for t, v in exp[2]][:6], real_equity=[(str(ts(t)), float(v)) for t, v in out.curve][:6]))
     rep.cov["traces_validated_against_impl"] = len(cfgs)
